@@ -30,6 +30,75 @@ enum Node {
     D(bool, P, Vec<Node>),
     /// `{R(..)}` (`true`: the alias `{release(..)}`)
     R(bool, P, Vec<Node>),
+    /// any other formatter `{<src><spec>}` with the pieces it writes (an input of the case)
+    X(String, Vec<String>, P),
+    /// a raw pattern snippet that carries no spec of its own (`Chunk::Error`), with its pieces
+    W(String, Vec<String>),
+    /// `{m<rawspec>}`: the message under a non-canonical spelling that must parse to `P`
+    Y(String, P),
+}
+
+/// The record and environment every case is encoded with; the texts of the `X` formatters below
+/// are derived from THIS table by the generator (never by running the code).
+const TARGET: &str = "tgt";
+const MODULE: &str = "mod::p";
+const FILE: &str = "src/f.rs";
+const LINE: u32 = 42;
+const MDC_KEY: &str = "k";
+const MDC_VAL: &str = "v中é";
+
+/// (formatter source, the pieces it writes)
+fn other_formatters() -> Vec<(&'static str, Vec<&'static str>)> {
+    vec![
+        ("t", vec![TARGET]),
+        ("target", vec![TARGET]),
+        ("M", vec![MODULE]),
+        ("module", vec![MODULE]),
+        ("f", vec![FILE]),
+        ("L", vec!["42"]),
+        ("n", vec!["\n"]),
+        ("X(k)", vec![MDC_VAL]),
+        ("mdc(k)(dflt)", vec![MDC_VAL]),
+        ("X(nokey)(d中)", vec!["d中"]),
+        ("X(nokey)", vec![""]),
+        ("T", vec!["main"]),
+        ("thread", vec!["main"]),
+        ("d(abc é)", vec!["abc é"]),
+        ("date(x中y)(utc)", vec!["x中y"]),
+    ]
+}
+
+/// raw snippets that become `Chunk::Error` — whatever spec they carry is dropped with them
+fn error_snippets() -> Vec<(&'static str, Vec<&'static str>)> {
+    vec![
+        ("{bogus}", vec!["{ERROR: ", "unknown formatter `bogus`", "}"]),
+        ("{bogus:>9.2}", vec!["{ERROR: ", "unknown formatter `bogus`", "}"]),
+        ("{m(x):~<30}", vec!["{ERROR: ", "unexpected arguments", "}"]),
+        ("{h:3}", vec!["{ERROR: ", "expected exactly one argument", "}"]),
+        ("{X:>4}", vec!["{ERROR: ", "missing MDC key", "}"]),
+    ]
+}
+
+/// non-canonical spellings of a spec and what `Parser::parameters` makes of them
+fn odd_specs() -> Vec<(&'static str, P)> {
+    let p = |fill: Option<char>, right: Option<bool>, min: Option<usize>, max: Option<usize>| P { fill, right, min, max };
+    vec![
+        (":", p(None, None, None, None)),
+        (":.", p(None, None, None, None)),
+        (":5.", p(None, None, Some(5), None)),
+        (":<", p(None, Some(false), None, None)),
+        (":>", p(None, Some(true), None, None)),
+        (":>.", p(None, Some(true), None, None)),
+        (":007.010", p(None, None, Some(7), Some(10))),
+        (":05", p(None, None, Some(5), None)),
+        (":00", p(None, None, Some(0), None)),
+        (":~<", p(Some('~'), Some(false), None, None)),
+        (":<<", p(Some('<'), Some(false), None, None)),
+        (":><3", p(Some('>'), Some(false), Some(3), None)),
+        (":.>.3", p(Some('.'), Some(true), None, Some(3))),
+        (":0>6.", p(Some('0'), Some(true), Some(6), None)),
+        (":中>04.004", p(Some('中'), Some(true), Some(4), Some(4))),
+    ]
 }
 
 /// `cfg!(debug_assertions)` of this build. The harness and log4rs are compiled under the same cargo
@@ -51,7 +120,7 @@ fn profile_probe_ok() -> bool {
     *OK.get_or_init(|| {
         let r = guarded(|| {
             let enc = PatternEncoder::new("{D(d)}{R(r)}{debug(D)}{release(R)}");
-            let mut cap = Cap { script: vec![], idx: 0, bytes: vec![], styles: vec![] };
+            let mut cap = Cap::new(vec![], None);
             let _ = enc.encode(&mut cap, &Record::builder().level(Level::Info).args(format_args!("x")).build());
             cap.bytes
         });
@@ -104,6 +173,15 @@ fn tokens(n: &Node, out: &mut Vec<String>) {
                 tokens(c, out);
             }
         }
+        Node::X(src, pieces, p) => {
+            let ps: Vec<String> = pieces.iter().map(|x| enc_str(x)).collect();
+            out.push(format!("x:{}/{}/{}", enc_str(src), enc_list(";", &ps), p_token(p)));
+        }
+        Node::W(raw, pieces) => {
+            let ps: Vec<String> = pieces.iter().map(|x| enc_str(x)).collect();
+            out.push(format!("w:{}/{}", enc_str(raw), enc_list(";", &ps)));
+        }
+        Node::Y(raw, p) => out.push(format!("y:{}/{}", enc_str(raw), p_token(p))),
         Node::D(long, p, cs) | Node::R(long, p, cs) => {
             let k = match (n, long) {
                 (Node::D(..), false) => 'd',
@@ -156,6 +234,18 @@ fn pattern(n: &Node, out: &mut String) {
         Node::L(p) => {
             out.push_str("{l");
             out.push_str(&p_pattern(p));
+            out.push('}');
+        }
+        Node::X(src, _, p) => {
+            out.push('{');
+            out.push_str(src);
+            out.push_str(&p_pattern(p));
+            out.push('}');
+        }
+        Node::W(raw, _) => out.push_str(raw),
+        Node::Y(raw, _) => {
+            out.push_str("{m");
+            out.push_str(raw);
             out.push('}');
         }
         Node::T(s) => {
@@ -229,6 +319,29 @@ fn parse_nodes(toks: &[String], pos: &mut usize, k: usize) -> Option<Vec<Node>> 
             'm' if cnt.is_empty() => Node::M(dec_p(arg)?),
             'l' if cnt.is_empty() => Node::L(dec_p(arg)?),
             't' if cnt.is_empty() => Node::T(dec_str(arg)?),
+            'x' if cnt.is_empty() => {
+                let f: Vec<&str> = arg.splitn(3, '/').collect();
+                if f.len() != 3 {
+                    return None;
+                }
+                let pieces: Option<Vec<String>> = dec_list(';', f[1]).iter().map(|x| dec_str(x)).collect();
+                Node::X(dec_str(f[0])?, pieces?, dec_p(f[2])?)
+            }
+            'w' if cnt.is_empty() => {
+                let f: Vec<&str> = arg.splitn(2, '/').collect();
+                if f.len() != 2 {
+                    return None;
+                }
+                let pieces: Option<Vec<String>> = dec_list(';', f[1]).iter().map(|x| dec_str(x)).collect();
+                Node::W(dec_str(f[0])?, pieces?)
+            }
+            'y' if cnt.is_empty() => {
+                let f: Vec<&str> = arg.splitn(2, '/').collect();
+                if f.len() != 2 {
+                    return None;
+                }
+                Node::Y(dec_str(f[0])?, dec_p(f[1])?)
+            }
             'g' | 'h' | 'd' | 'D' | 'r' | 'R' => {
                 let n: usize = cnt.parse().ok()?;
                 let p = dec_p(arg)?;
@@ -262,20 +375,76 @@ fn parse_forest(field: &str) -> Option<Vec<Node>> {
 // ---------------------------------------------------------------------------------------------
 // the capturing writer and the piecewise message
 // ---------------------------------------------------------------------------------------------
+/// one scripted answer of the sink's `write`
+#[derive(Clone, Copy, Debug, PartialEq)]
+enum Acc {
+    /// accept (0 = everything, k = at most k bytes)
+    Take(usize),
+    /// `Err(io::Error::other(..))`
+    Fail,
+    /// the error a real stream gives: the bytes are written to `/dev/full`, the OS answers ENOSPC
+    DevFull,
+    /// `Err(ErrorKind::Interrupted)` — std's `write_all` retries
+    Intr,
+}
+
+fn enc_acc(a: &Acc) -> String {
+    match a {
+        Acc::Take(k) => k.to_string(),
+        Acc::Fail => "e".to_owned(),
+        Acc::DevFull => "f".to_owned(),
+        Acc::Intr => "i".to_owned(),
+    }
+}
+
+fn dec_acc(s: &str) -> Option<Acc> {
+    match s {
+        "e" => Some(Acc::Fail),
+        "f" => Some(Acc::DevFull),
+        "i" => Some(Acc::Intr),
+        _ => s.parse().ok().map(Acc::Take),
+    }
+}
+
 struct Cap {
-    script: Vec<usize>,
+    script: Vec<Acc>,
     idx: usize,
+    /// `Some(n)`: the n+1-th `set_style` call fails
+    style_budget: Option<usize>,
     bytes: Vec<u8>,
     styles: Vec<(usize, Style)>,
 }
 
+impl Cap {
+    fn new(script: Vec<Acc>, style_budget: Option<usize>) -> Cap {
+        Cap { script, idx: 0, style_budget, bytes: vec![], styles: vec![] }
+    }
+}
+
 impl io::Write for Cap {
     fn write(&mut self, buf: &[u8]) -> io::Result<usize> {
-        let k = self.script.get(self.idx).copied().unwrap_or(0);
+        let a = self.script.get(self.idx).copied().unwrap_or(Acc::Take(0));
         self.idx += 1;
-        let n = if k == 0 { buf.len() } else { k.min(buf.len()) };
-        self.bytes.extend_from_slice(&buf[..n]);
-        Ok(n)
+        match a {
+            Acc::Take(k) => {
+                let n = if k == 0 { buf.len() } else { k.min(buf.len()) };
+                self.bytes.extend_from_slice(&buf[..n]);
+                Ok(n)
+            }
+            Acc::Fail => Err(io::Error::new(io::ErrorKind::Other, "scripted failure")),
+            Acc::Intr => Err(io::Error::new(io::ErrorKind::Interrupted, "scripted interruption")),
+            Acc::DevFull => {
+                let mut f = std::fs::OpenOptions::new().write(true).open("/dev/full")?;
+                match io::Write::write(&mut f, buf) {
+                    // /dev/full never accepts anything; should it, report that as a (wrong) success
+                    Ok(n) => {
+                        self.bytes.extend_from_slice(&buf[..n]);
+                        Ok(n)
+                    }
+                    Err(e) => Err(e),
+                }
+            }
+        }
     }
     fn flush(&mut self) -> io::Result<()> {
         Ok(())
@@ -284,17 +453,26 @@ impl io::Write for Cap {
 
 impl encode::Write for Cap {
     fn set_style(&mut self, style: &Style) -> io::Result<()> {
+        match self.style_budget {
+            Some(0) => return Err(io::Error::new(io::ErrorKind::Other, "scripted set_style failure")),
+            Some(n) => self.style_budget = Some(n - 1),
+            None => {}
+        }
         self.styles.push((self.bytes.len(), style.clone()));
         Ok(())
     }
 }
 
-struct Piecewise(Vec<String>);
+/// the message: `Some(piece)` = one `write_str`, `None` = the `Display` impl returns `Err` here
+struct Piecewise(Vec<Option<String>>);
 
 impl fmt::Display for Piecewise {
     fn fmt(&self, f: &mut fmt::Formatter<'_>) -> fmt::Result {
         for p in &self.0 {
-            f.write_str(p)?;
+            match p {
+                Some(p) => f.write_str(p)?,
+                None => return Err(fmt::Error),
+            }
         }
         Ok(())
     }
@@ -323,14 +501,26 @@ fn enc_style(s: &Style) -> String {
 }
 
 pub fn exec(fields: &[&str]) -> String {
-    if fields.len() != 4 && fields.len() != 5 {
+    // a trailing `@<alt build>` field only routes the case to a harness binary (see ./check)
+    let fields: &[&str] = match fields.last() {
+        Some(f) if f.starts_with('@') => &fields[..fields.len() - 1],
+        _ => fields,
+    };
+    if fields.len() < 4 || fields.len() > 6 {
         return "bad-case".to_owned();
     }
+    let style_budget: Option<usize> = match fields.get(5) {
+        None | Some(&"-") => None,
+        Some(s) => match s.parse() {
+            Ok(n) => Some(n),
+            Err(_) => return "bad-case".to_owned(),
+        },
+    };
     let forest = match parse_forest(fields[0]) {
         Some(f) => f,
         None => return "bad-case".to_owned(),
     };
-    if fields.len() == 5 {
+    if fields.len() >= 5 {
         if fields[4] != "debug" && fields[4] != "release" {
             return "bad-case".to_owned();
         }
@@ -339,7 +529,7 @@ pub fn exec(fields: &[&str]) -> String {
         }
     }
     if forest.iter().any(has_gated) {
-        if fields.len() != 5 {
+        if fields.len() < 5 {
             return "bad-case".to_owned();
         }
         if !profile_probe_ok() {
@@ -354,12 +544,15 @@ pub fn exec(fields: &[&str]) -> String {
         "5" => Level::Trace,
         _ => return "bad-case".to_owned(),
     };
-    let pieces: Option<Vec<String>> = dec_list(',', fields[2]).iter().map(|s| dec_str(s)).collect();
+    let pieces: Option<Vec<Option<String>>> = dec_list(',', fields[2])
+        .iter()
+        .map(|s| if s == "!" { Some(None) } else { dec_str(s).map(Some) })
+        .collect();
     let pieces = match pieces {
         Some(p) => p,
         None => return "bad-case".to_owned(),
     };
-    let script: Option<Vec<usize>> = dec_list(',', fields[3]).iter().map(|s| s.parse().ok()).collect();
+    let script: Option<Vec<Acc>> = dec_list(',', fields[3]).iter().map(|s| dec_acc(s)).collect();
     let script = match script {
         Some(s) => s,
         None => return "bad-case".to_owned(),
@@ -368,23 +561,35 @@ pub fn exec(fields: &[&str]) -> String {
     for n in &forest {
         pattern(n, &mut pat);
     }
-    let r = guarded(move || {
-        let enc = PatternEncoder::new(&pat);
-        let mut cap = Cap { script, idx: 0, bytes: vec![], styles: vec![] };
-        let msg = Piecewise(pieces);
-        let res = enc.encode(
-            &mut cap,
-            &Record::builder().level(level).target("t").args(format_args!("{}", msg)).build(),
-        );
-        (res.is_ok(), cap.bytes, cap.styles)
-    });
+    // the sink outlives the encode (and a panic inside it): what reached it is always observable
+    let mut cap = Cap::new(script, style_budget);
+    let r = {
+        let cap = &mut cap;
+        guarded(std::panic::AssertUnwindSafe(move || {
+            log_mdc::clear();
+            log_mdc::insert(MDC_KEY, MDC_VAL);
+            let enc = PatternEncoder::new(&pat);
+            let msg = Piecewise(pieces);
+            let res = enc.encode(
+                cap,
+                &Record::builder()
+                    .level(level)
+                    .target(TARGET)
+                    .module_path(Some(MODULE))
+                    .file(Some(FILE))
+                    .line(Some(LINE))
+                    .args(format_args!("{}", msg))
+                    .build(),
+            );
+            res.is_ok()
+        }))
+    };
+    let st: Vec<String> = cap.styles.iter().map(|(pos, s)| format!("{}:{}", pos, enc_style(s))).collect();
+    let seen = format!("{} {}", enc_bytes(&cap.bytes), enc_list(",", &st));
     match r {
-        Err(_) => "PANIC".to_owned(),
-        Ok((false, _, _)) => "err".to_owned(),
-        Ok((true, bytes, styles)) => {
-            let st: Vec<String> = styles.iter().map(|(pos, s)| format!("{}:{}", pos, enc_style(s))).collect();
-            format!("{} {}", enc_bytes(&bytes), enc_list(",", &st))
-        }
+        Err(_) => format!("PANIC {}", seen),
+        Ok(false) => format!("err {}", seen),
+        Ok(true) => seen,
     }
 }
 
@@ -443,7 +648,33 @@ fn split_pieces(rng: &mut Rng, s: &str) -> Vec<String> {
     out
 }
 
+/// a fault schedule on top of an accept script: one failing answer (synthetic or /dev/full) at a
+/// random call and/or Interrupted answers sprinkled in
+fn with_faults(rng: &mut Rng, script: &[usize]) -> Vec<Acc> {
+    let mut v: Vec<Acc> = script.iter().map(|k| Acc::Take(*k)).collect();
+    let want = rng.range(1, 16) as usize;
+    v.truncate(want);
+    while v.len() < want {
+        v.push(Acc::Take(*rng.pick(&[0usize, 1, 1, 2, 3])));
+    }
+    if rng.chance(1, 2) {
+        for a in v.iter_mut() {
+            if rng.chance(1, 6) {
+                *a = Acc::Intr;
+            }
+        }
+    }
+    if rng.chance(3, 4) {
+        let at = rng.below(v.len() as u64) as usize;
+        v[at] = if rng.chance(1, 3) { Acc::DevFull } else { Acc::Fail };
+    }
+    v
+}
+
 fn rand_script(rng: &mut Rng) -> Vec<usize> {
+    if rng.chance(1, 8) {
+        return (0..rng.range(1, 40)).map(|_| *rng.pick(&[0usize, 1, 4, 6, 7, 8, 13, 16, 31, 64])).collect();
+    }
     match rng.below(5) {
         0 => vec![],
         1 => vec![1; 80],
@@ -487,9 +718,25 @@ fn rand_p(rng: &mut Rng, big: bool) -> P {
 fn rand_node(rng: &mut Rng, depth: u64, big: bool) -> Node {
     let leaf = depth == 0 || rng.chance(1, 3);
     if leaf {
-        match rng.below(6) {
-            0 | 1 | 2 => Node::M(rand_p(rng, big)),
-            3 => Node::L(rand_p(rng, big)),
+        match rng.below(10) {
+            0 | 1 | 2 | 3 => Node::M(rand_p(rng, big)),
+            4 => Node::L(rand_p(rng, big)),
+            5 => {
+                let fs = other_formatters();
+                let (src, pcs) = rng.pick(&fs).clone();
+                Node::X(src.to_owned(), pcs.iter().map(|x| x.to_string()).collect(), rand_p(rng, big))
+            }
+            6 => {
+                if rng.chance(1, 2) {
+                    let es = error_snippets();
+                    let (raw, pcs) = rng.pick(&es).clone();
+                    Node::W(raw.to_owned(), pcs.iter().map(|x| x.to_string()).collect())
+                } else {
+                    let os = odd_specs();
+                    let (raw, p) = rng.pick(&os).clone();
+                    Node::Y(raw.to_owned(), p)
+                }
+            }
             _ => Node::T(rand_text(rng, LIT, 5)),
         }
     } else {
@@ -505,20 +752,57 @@ fn rand_node(rng: &mut Rng, depth: u64, big: bool) -> Node {
 }
 
 fn case_line(forest: &[Node], level: u64, pieces: &[String], script: &[usize]) -> String {
+    let ps: Vec<Option<String>> = pieces.iter().map(|p| Some(p.clone())).collect();
+    let sc: Vec<Acc> = script.iter().map(|k| Acc::Take(*k)).collect();
+    case_line_x(forest, level, &ps, &sc, None)
+}
+
+/// the parser merges neighbouring literal text into one piece: do the same to the tree
+fn merge_literals(ns: &[Node]) -> Vec<Node> {
+    let mut out: Vec<Node> = vec![];
+    for n in ns {
+        let n = match n {
+            Node::G(p, cs) => Node::G(p.clone(), merge_literals(cs)),
+            Node::H(p, cs) => Node::H(p.clone(), merge_literals(cs)),
+            Node::D(a, p, cs) => Node::D(*a, p.clone(), merge_literals(cs)),
+            Node::R(a, p, cs) => Node::R(*a, p.clone(), merge_literals(cs)),
+            other => other.clone(),
+        };
+        match (out.last_mut(), &n) {
+            (Some(Node::T(a)), Node::T(b)) => a.push_str(b),
+            _ => out.push(n),
+        }
+    }
+    out
+}
+
+fn case_line_x(forest: &[Node], level: u64, pieces: &[Option<String>], script: &[Acc], style_budget: Option<usize>) -> String {
+    let forest = merge_literals(forest);
     let mut toks = vec![];
-    for n in forest {
+    for n in &forest {
         tokens(n, &mut toks);
     }
-    let ps: Vec<String> = pieces.iter().map(|p| enc_str(p)).collect();
-    let sc: Vec<String> = script.iter().map(|k| k.to_string()).collect();
-    format!(
+    let ps: Vec<String> = pieces.iter().map(|p| match p {
+        Some(p) => enc_str(p),
+        None => "!".to_owned(),
+    }).collect();
+    let sc: Vec<String> = script.iter().map(enc_acc).collect();
+    let mut line = format!(
         "{}\t{}\t{}\t{}\t{}",
         enc_list(",", &toks),
         level,
         enc_list(",", &ps),
         enc_list(",", &sc),
         build_profile()
-    )
+    );
+    if let Some(n) = style_budget {
+        line.push_str(&format!("\t{}", n));
+    }
+    if !cfg!(debug_assertions) {
+        // generated by a build without debug assertions: must be executed by such a build
+        line.push_str("\t@nodebug");
+    }
+    line
 }
 
 fn chars_split(s: &str) -> Vec<String> {
@@ -661,6 +945,80 @@ pub fn gen(rng: &mut Rng, n: usize, thorough: bool, emit: &mut dyn FnMut(String)
             emit(case_line(forest, 1, &pieces, &[1, 1, 1, 1, 1, 1, 1, 1, 1, 1, 1, 1, 1, 1, 1, 1]));
         }
     }
+    // every other formatter, every error snippet and every non-canonical spelling: alone, under a
+    // cutting / padding spec of its own, and inside a group with a spec
+    let fspecs: Vec<P> = vec![
+        w_none.clone(),
+        P { fill: Some('·'), right: Some(true), min: Some(9), max: None },
+        P { fill: Some('~'), right: Some(false), min: Some(4), max: Some(5) },
+        P { fill: None, right: None, min: None, max: Some(2) },
+        P { fill: Some('😀'), right: Some(true), min: Some(7), max: Some(3) },
+    ];
+    for (src, pcs) in other_formatters() {
+        for (i, sp) in fspecs.iter().enumerate() {
+            let x = Node::X(src.to_owned(), pcs.iter().map(|x| x.to_string()).collect(), sp.clone());
+            let script: Vec<usize> = if i % 2 == 0 { vec![] } else { vec![1; 120] };
+            emit(case_line(&[Node::T("<".to_owned()), x.clone(), Node::T(">".to_owned())], 3, &["msg".to_owned()], &script));
+            let o = &outer_specs[i % outer_specs.len()];
+            emit(case_line(&[Node::G(o.clone(), vec![x.clone(), Node::T("|".to_owned()), Node::M(w_none.clone())])], 2, &["m中".to_owned()], &script));
+        }
+    }
+    for (raw, pcs) in error_snippets() {
+        let wnode = Node::W(raw.to_owned(), pcs.iter().map(|x| x.to_string()).collect());
+        emit(case_line(&[wnode.clone()], 3, &["x".to_owned()], &[]));
+        for (i, o) in outer_specs.iter().enumerate() {
+            let script: Vec<usize> = if i % 2 == 0 { vec![] } else { vec![3; 120] };
+            emit(case_line(&[Node::G(o.clone(), vec![Node::L(w_none.clone()), wnode.clone()])], 3, &["x".to_owned()], &script));
+            emit(case_line(&[Node::H(o.clone(), vec![wnode.clone(), Node::T("é".to_owned())])], 1, &["x".to_owned()], &script));
+        }
+    }
+    for (raw, p) in odd_specs() {
+        for text in ["", "ab", "héllo wörld 中文"] {
+            let y = Node::Y(raw.to_owned(), p.clone());
+            emit(case_line(&[Node::T("[".to_owned()), y.clone(), Node::T("]".to_owned())], 3, &chars_split(text), &[2; 60]));
+            emit(case_line(&[Node::G(outer_specs[0].clone(), vec![y])], 3, &[text.to_owned()], &[]));
+        }
+    }
+    // failing runs, deterministic: a byte-by-byte sink that fails at its k-th call, for EVERY k up to
+    // the length of the output — after every possible number of emitted bytes, also in the middle
+    // of a multi-byte character —, for left/right alignment with and without a maximum, nested,
+    // with a highlight (failing set_style for every budget) and with a failing Display at every
+    // piece position
+    let fail_forests: Vec<Vec<Node>> = vec![
+        vec![Node::M(P { fill: Some('~'), right: Some(false), min: Some(7), max: None })],
+        vec![Node::M(P { fill: Some('中'), right: Some(true), min: Some(6), max: Some(8) })],
+        vec![Node::M(P { fill: None, right: None, min: None, max: Some(3) })],
+        vec![Node::T("[é".to_owned()), Node::G(
+            P { fill: Some('😀'), right: Some(false), min: Some(8), max: Some(9) },
+            vec![Node::L(w_none.clone()), Node::T(":".to_owned()), Node::M(P { fill: Some('.'), right: Some(true), min: Some(4), max: None })],
+        ), Node::T("]".to_owned())],
+        vec![Node::H(P { fill: Some('*'), right: Some(true), min: Some(9), max: None }, vec![Node::M(w_none.clone()), Node::H(w_none.clone(), vec![Node::L(w_none.clone())])])],
+        vec![Node::R(false, P { fill: Some('#'), right: Some(false), min: Some(3), max: None }, vec![]), Node::D(false, P { fill: Some('#'), right: Some(true), min: Some(5), max: Some(4) }, vec![Node::M(w_none.clone())])],
+    ];
+    let fail_kinds: &[Acc] = if thorough { &[Acc::Fail, Acc::DevFull] } else { &[Acc::Fail] };
+    for (fi, forest) in fail_forests.iter().enumerate() {
+        let text = if fi % 2 == 0 { "aé中" } else { "😀b" };
+        let pieces: Vec<Option<String>> = chars_split(text).into_iter().map(Some).collect();
+        for k in 0..26usize {
+            for kind in fail_kinds {
+                let mut sc = vec![Acc::Take(1); k];
+                if k % 3 == 2 {
+                    sc.insert(k / 2, Acc::Intr);
+                }
+                sc.push(*kind);
+                emit(case_line_x(forest, 1, &pieces, &sc, None));
+            }
+        }
+        for b in 0..5usize {
+            emit(case_line_x(forest, 1, &pieces, &[Acc::Take(2); 50], Some(b)));
+        }
+        for at in 0..=pieces.len() {
+            let mut ps = pieces.clone();
+            ps.insert(at, None);
+            emit(case_line_x(forest, 2, &ps, &[Acc::Take(1); 50], None));
+            emit(case_line_x(forest, 2, &ps, &[], None));
+        }
+    }
     // random stream
     for _ in 0..n {
         let big = thorough && rng.chance(1, 10);
@@ -675,7 +1033,31 @@ pub fn gen(rng: &mut Rng, n: usize, thorough: bool, emit: &mut dyn FnMut(String)
         let pieces = split_pieces(rng, &text);
         let script = rand_script(rng);
         let level = rng.range(1, 5);
-        emit(case_line(&forest, level, &pieces, &script));
+        if rng.chance(1, 4) {
+            // a failing run: sink error / interruption, failing set_style, failing Display
+            let mut ps: Vec<Option<String>> = pieces.iter().map(|p| Some(p.clone())).collect();
+            let mut sc: Vec<Acc> = script.iter().map(|k| Acc::Take(*k)).collect();
+            let mut budget = None;
+            match rng.below(6) {
+                0 | 1 | 2 => sc = with_faults(rng, &script),
+                3 => budget = Some(rng.range(0, 3) as usize),
+                4 => {
+                    let at = rng.below(ps.len() as u64 + 1) as usize;
+                    ps.insert(at, None);
+                }
+                _ => {
+                    sc = with_faults(rng, &script);
+                    budget = Some(rng.range(0, 4) as usize);
+                    if rng.chance(1, 2) {
+                        let at = rng.below(ps.len() as u64 + 1) as usize;
+                        ps.insert(at, None);
+                    }
+                }
+            }
+            emit(case_line_x(&forest, level, &ps, &sc, budget));
+        } else {
+            emit(case_line(&forest, level, &pieces, &script));
+        }
     }
 }
 
